@@ -633,22 +633,31 @@ TECHNIQUE = ("Lean 4 proof that tetl's own code on one path equals the specifica
              "(constant evaluator / run time at -O0, -O2, sanitized / Lean) ties both paths to the specification")
 LEVEL_TEXT = ("Every function with a compile-time/run-time switch (is_constant_evaluated, __has_builtin, compiler test) is extracted from "
               "the current headers into a Lean table on every run; Lean re-checks that each entry's builtins and callees are bound to "
-              "one specification. For popcount, byteswap, add_sat, the C-string functions, copysign and isnan the callee's model is "
-              "proved equal to that specification for all inputs (no bound), and the bit-level binary32/binary64 specification of "
-              "floor/ceil/trunc/round/rint is proved to return an integral value with the sign of the argument, idempotently. "
-              "Both paths of every operation are then evaluated on the same inputs by the constant evaluator (constexpr tables, one "
-              "row per case; a row that does not constant-evaluate is reported with function and argument) and at run time from "
-              "volatile arguments at -O0, -O2 and -O1+ASan/UBSan, and compared with the Lean model and specification and with glibc.")
+              "one specification and that fma is the only live pair known to differ. For popcount, byteswap (16 bit), add_sat, the "
+              "C-string functions, copysign and isnan the model of tetl's own code on one path is proved, for all inputs and every "
+              "width/format, to return without undefined behaviour exactly the value specified for the builtin on the other path; for "
+              "gcem floor/ceil/trunc and rint_fallback it is proved that no argument reaches an out-of-range integer conversion (the "
+              "model-level face of `constant evaluation succeeds on the whole domain`). Both paths of every operation are then evaluated "
+              "on the same inputs by the constant evaluator (constexpr tables, one row per case; a row that does not constant-evaluate is "
+              "reported with function and argument) and at run time from volatile arguments at -O0, -O2 and -O1+ASan/UBSan, and compared "
+              "with the Lean models and specification and with glibc/libstdc++.")
 LEVEL_NOTE = ("Partial by design (DESIGN §6): that GCC's constant evaluator and code generator implement the abstract machine, and that "
               "builtins implement their specification, is trusted and observed on the explored inputs only (coverage.unproved_observed). "
               "The gcem rounding algorithms and the rint/lrint fallbacks are modelled and compared on every run but have no theorem yet "
               "(coverage.correspondence_only). Approximating cmath functions are inventoried but have no exactly specified result and "
               "are outside the statement. Trusted: Lean kernel + propext/Classical.choice/Quot.sound, gen/dispatch.py, g++ 12, glibc "
               "as oracle for the specification.")
-CORRESPONDENCE_ONLY = ["gcem::floor (model Model.gcemFloor vs FSpec.roundTo .floor)", "gcem::ceil (Model.gcemCeil)",
-                       "gcem::trunc (Model.gcemTrunc)", "gcem::round (Model.gcemRound)",
-                       "rint_fallback (Model.rintFallback)", "lrint_fallback / llrint (Model.lrintFallback)",
-                       "fma: two-step constant-evaluated path (Model.fmaTwoStep) vs fused specification (Fmt.fma): known finding",
-                       "signbit, isinf, isfinite, bit_cast: builtin on both paths, compared with the bit-level specification",
-                       "cctype functions (single path): C18 model and specification, all 257 arguments at compile time and run time"]
+CORRESPONDENCE_ONLY = [
+    "gcem::floor, gcem::ceil, gcem::trunc: VALUE equality (Model.gcemFloor/gcemCeil/gcemTrunc = FSpec.roundTo) is compared on every "
+    "run, not proved; proved: the models never reach an out-of-range long long conversion (gcemFloor_total, gcemCeil_total, gcemTrunc_total)",
+    "gcem::round (Model.gcemRound, through find_whole): value and totality by correspondence only",
+    "rint_fallback (Model.rintFallback): value by correspondence; totality proved (rintFallback_total)",
+    "lrint_fallback / llrint (Model.lrintFallback): correspondence only, on the domain where the result is representable",
+    "fma: two-step constant-evaluated path (Model.fmaTwoStep) vs fused specification (Fmt.fma): known finding "
+    "F-c13-fma-constexpr-double-rounding; partial theorem with the class as hypothesis + counterexample",
+    "byteswap_fallback for uint32_t / uint64_t (C14 model bswap32/bswap64): correspondence only (16 bit proved: byteswap_paths)",
+    "signbit, isinf, isfinite, bit_cast, byteswap, add_sat (builtin on both paths): compared with the specification on every case",
+    "cctype functions (single path): C18 model and specification, all 257 arguments in constant evaluation and at run time",
+    "IEEE operations of Tetl/C13/Float.lean (roundUnits, add, mul, fma) used as the specification of rounding/fma: validated "
+    "against glibc on every case (R2), not proved against a rational-number semantics (that is C16's obligation)"]
 THEOREMS = {}
